@@ -225,12 +225,14 @@ func runeBag(s string) map[rune]int {
 }
 
 func hasMarginalRepeat(d frag.Doc) bool {
-	seen := map[string]int{}
+	seen := map[string]int{} // pages on which the text occurs inside a band
 	for _, p := range d.Pages {
 		_, h := p.Box()
+		here := map[string]bool{}
 		for _, fr := range p.Frags {
-			if fr.InBand(h) {
-				seen[normalize(fr.T)]++
+			if k := normalize(fr.T); fr.InBand(h) && !here[k] {
+				here[k] = true
+				seen[k]++
 			}
 		}
 	}
